@@ -28,12 +28,12 @@ func TestMain(m *testing.M) {
 	vh.Main(m, vh.Meta{
 		ID:    "C04",
 		Level: "exploration",
-		Rule: "(default-writer) rapid-generated point clouds (identity indices) and triangle meshes (any index pattern: shared, unreferenced, duplicated vertices, zero triangles) with any subset of Position, Normal, Color(8-bit), TexCoord (triangle meshes), FDC, Scale, Opacity, Rotation and user-named v1..v4 attributes, finite values inside float32 range incl. 1e-30..1e30 magnitudes, written by ply.Write in ascii / little-endian / big-endian, optional material texture URI; " +
+		Rule: "(default-writer) rapid-generated point clouds and triangle meshes (any index pattern: shared, unreferenced, duplicated vertices, zero triangles) with any subset of Position, Normal, Color(8-bit), TexCoord (triangle meshes), FDC, Scale, Opacity, Rotation and user-named v1..v4 attributes, finite values inside float32 range incl. 1e-30..1e30 magnitudes, written by ply.Write in ascii / little-endian / big-endian, optional material texture URI; " +
 			"(custom-writers) point clouds written by a MeshWriter with Vector1..4PropertyWriter of drawn types uchar/int/float/double, custom property names, WriteUnspecifiedProperties on/off, read back through a matching MeshReader. " +
 			"Oracles: (1) the harness's own header parser + size law (binary: bytes after end_header == sum of count x record size incl. face records, parsed in the endianness the header TEXT declares; ascii: line and token counts); (2) ReadMesh(Write(m)): same topology and primitive count, per-corner equality of every attribute at the stored type's precision (float32 image exactly, 1/255 for 8-bit), user-named vN attributes under name_k scalars, nothing invented; (3) the three encodings decode to the same mesh. " +
 			"Non-trivial = non-identity indices or TexCoord present or >= 1 non-float property type. Distinct by case JSON.",
 		Assumptions: []string{
-			"point clouds are written with identity indices (the format has no index list for points)",
+			"point clouds carry identity indices (the format has no index list for points and the writer stores the vertex list as it is; a cloud whose index list repeats, omits or reorders vertices would come back as the plain vertex list - noted in DESIGN, not judged)",
 			"8-bit colour values lie in [0,1]",
 			"uchar-typed SCALAR properties are not generated in the ascii encoding: known finding ascii-uchar-scalar-raw (counted as excluded_known)",
 			"ascii decodes at float32 precision whatever the declared type; double-typed custom properties therefore carry float32-exact values",
@@ -254,7 +254,8 @@ func plyVal() *rapid.Generator[float64] {
 func genCase(t *rapid.T) Case {
 	d := gen.Mesh(t, gen.MeshOpts{MaxN: 7, MaxPrims: 5, Attrs: plyAttrs, Val: plyVal(), DupPos: true}, "m")
 	if d.Topology() == modeling.PointTopology {
-		// the format has no index list for points: identity indices, and TexCoord is not stored
+		// the format has no index list for points and the writer stores the vertex list as it is:
+		// a point cloud is generated with identity indices (what NewPointCloud and the readers produce)
 		d.Idx = make([]int, d.N)
 		for i := range d.Idx {
 			d.Idx[i] = i
@@ -406,8 +407,9 @@ func runCase(c Case, o *vh.Obs) *vh.Failure {
 		if err := sizeLaw(h, file); err != nil {
 			return vh.Failf("header-vs-body/"+fname, "%v\n%q", err, file)
 		}
-		if len(h.Elems) == 0 || h.Elems[0].Name != "vertex" || h.Elems[0].Count != d.N {
-			return vh.Failf("header-vertex-count/"+fname, "vertex element %+v, mesh has %d vertices", h.Elems, d.N)
+		wantVerts := d.N
+		if len(h.Elems) == 0 || h.Elems[0].Name != "vertex" || h.Elems[0].Count != wantVerts {
+			return vh.Failf("header-vertex-count/"+fname, "vertex element %+v, mesh has %d vertices / %d points", h.Elems, d.N, len(d.Idx))
 		}
 		if d.Topology() == modeling.TriangleTopology && (len(h.Elems) != 2 || h.Elems[1].Name != "face" || h.Elems[1].Count != d.PrimCount()) {
 			return vh.Failf("header-face-count/"+fname, "elements %+v, mesh has %d triangles", h.Elems, d.PrimCount())
